@@ -261,8 +261,23 @@ class ProgGen(object):
             else:
                 ib += self.marker()
         ptext_o = ''.join('#%d' % i for i in range(1, no + 1))
-        ptext_i = ''.join('##%d' % i for i in range(1, ni + 1))
-        sig = Sig(outer, 'def', self.rank - 1, depth, items=[('u', i) for i in range(1, no + 1)], defines=(inner, ni, self.rank))
+        # parameter text of the inner macro: undelimited, or with a leading literal and character delimiters
+        inner_items, ptext_i = [], ''
+        if r.random() < 0.35:
+            lit = r.choice(['(', '[', '<', '='])
+            inner_items.append(('lit', lit))
+            ptext_i += lit
+            self.features.add('nested-definition-leading-literal')
+        for i in range(1, ni + 1):
+            if r.random() < 0.35:
+                d = r.choice([x for x in DELIMS if not x.startswith('\\')])
+                inner_items.append(('d', i, d))
+                ptext_i += '##%d%s' % (i, d)
+                self.features.add('nested-definition-delimited')
+            else:
+                inner_items.append(('u', i))
+                ptext_i += '##%d' % i
+        sig = Sig(outer, 'def', self.rank - 1, depth, items=[('u', i) for i in range(1, no + 1)], defines=(inner, inner_items, self.rank))
         self.register(sig, False)
         self.features.add('nested-definition')
         return '\\def\\%s%s{\\def\\%s%s{%s}}' % (outer, ptext_o, inner, ptext_i, ib)
@@ -349,10 +364,10 @@ class ProgGen(object):
         sig = r.choice(vis)
         depth = len(self.scopes) - 1
         if sig.defines is not None:
-            inner, ni, rank = sig.defines
-            # calling the definer defines `inner` locally with ni undelimited parameters
+            inner, inner_items, rank = sig.defines
+            # calling the definer defines `inner` locally with the parameter text recorded at its definition
             args = ''.join('{' + self.marker() + '}' for _ in sig.items)
-            isig = Sig(inner, 'def', rank, depth, items=[('u', i) for i in range(1, ni + 1)])
+            isig = Sig(inner, 'def', rank, depth, items=list(inner_items))
             self.register(isig, False)
             return self.cs(sig.name, args or r.choice([' ', '{}']))
         if sig.plain is not None and r.random() < 0.3:
